@@ -19,7 +19,7 @@ class VmHarness:
     def close(self):
         shutil.rmtree(self.dir, ignore_errors=True)
 
-    def run(self, src=None, file=None, mem=5000, stack=200, gc=0, execs=1, args=(), trace=True, maxlines=400000, timeout=120, entry="main", cwd=None, pre=(), calls=None, bdump=None):
+    def run(self, src=None, file=None, mem=5000, stack=200, gc=0, execs=1, args=(), trace=True, maxlines=400000, timeout=120, entry="main", cwd=None, pre=(), calls=None, bdump=None, never_path=None):
         """run the implementation; returns dict(paths, stdout bytes, rc, result lines)"""
         with self._lock:
             k = next(self._cnt)
@@ -35,6 +35,8 @@ class VmHarness:
         cmd += (["-B", bdump] if bdump else ["-f", file] if file else ["-e", src])
         cmd += list(args)
         env = dict(os.environ, ASAN_OPTIONS="detect_leaks=0:abort_on_error=0:allocator_may_return_null=1", UBSAN_OPTIONS="print_stacktrace=0")
+        if never_path is not None:
+            env["NEVER_PATH"] = never_path
         try:
             p = subprocess.run(cmd, stdout=subprocess.PIPE, stderr=subprocess.PIPE, timeout=timeout, env=env, cwd=cwd or SAMPLES, stdin=subprocess.DEVNULL)
             rc, out, err = p.returncode, p.stdout, p.stderr.decode("latin1")
